@@ -14,7 +14,8 @@ enumerated on the real generator:
  (c) cwd x path spelling   - {/, input parent, output dir} x {absolute, relative to cwd}
  (d) absolute location     - {A, B}: different depth and length, same relative layout; C: the directories above the inputs
                              are named like the root namespace(s); D: only the output directory has such ancestors
- (e) process + hash seed   - separate interpreter per PYTHONHASHSEED in {0,1,2,3}, real CLI entry point, real sets
+ (e) process + hash seed   - separate interpreter per PYTHONHASHSEED in {0..3} (thorough {0..7}), real CLI entry point, with
+                             and without --generate-namespace-types, real sets
                              (guards the set literals / comprehensions the injected name cannot reach, listed below)
  x target {c, cpp c++14/c++17/c++17-pmr/cetl++14-17, py, html} x serialization support {on, off}.
 
@@ -102,6 +103,29 @@ NAMESPACES: typing.Dict[str, typing.Dict[str, typing.Any]] = {
         },
         "lookup": {"z": {"z/B.1.0.dsdl": "uint8 v\n" + _S, "z/y/Struct_.1.0.dsdl": "int8 v\n" + _S}},
     },
+    # several versions of ONE type (they tie under every name-only ordering) in the root and in a nested namespace,
+    # next to sibling types that use them
+    "multi": {
+        "root": "x",
+        "files": {
+            "x/Reading.1.0.dsdl": "uint8 v\n@extent 64\n",
+            "x/Reading.1.1.dsdl": "uint8 v\nuint8 w\n@extent 64\n",
+            "x/Reading.1.2.dsdl": "uint8 v\nuint8 w\nuint8 u\n@extent 64\n",
+            "x/Reading.2.0.dsdl": "uint16 v\n@extent 64\n",
+            "x/A.1.0.dsdl": "x.Reading.1.2 a\nx.Reading.2.0 b\nx.y.Reading.1.1[<=2] c\n" + _S,
+            "x/y/Reading.1.0.dsdl": "int8 v\n@extent 32\n",
+            "x/y/Reading.1.1.dsdl": "int8 v\nint8 w\n@extent 32\n",
+            "x/y/Reading.2.0.dsdl": "int16 v\n@extent 32\n",
+            "x/y/B.1.0.dsdl": "x.y.Reading.1.0 a\nx.y.Reading.2.0 b\n" + _S,
+        },
+    },
+    # nested namespaces whose names differ only in letter case (PyDSDL accepts them); HTML only
+    "case": {
+        "root": "x",
+        "targets": ["html"],
+        "feature": "nested_namespaces_differ_only_in_case",
+        "files": {"x/q/T.1.0.dsdl": "uint8 v\n" + _S, "x/Q/U.1.0.dsdl": "uint8 v\n" + _S},
+    },
 }
 
 LANGS: typing.Dict[str, typing.Tuple[str, typing.Optional[dict]]] = {
@@ -120,7 +144,8 @@ SPELL = ["abs", "rel"]
 LOCS = ["A", "B", "C", "D"]
 REF_AMBIENT = ("2024", "root", "abs", "A")
 AMBIENT_DIMS = ("clock", "cwd", "path_spelling", "location")
-SEEDS = [0, 1, 2, 3]
+SEEDS = [0, 1, 2, 3]  # quick; a tie of 4 elements has 24 orders: 3 other seeds agree with seed 0 by chance in < 0.01 %
+SEEDS_THOROUGH = list(range(8))
 
 Cfg = typing.Tuple[str, str, bool]  # (namespace name, language id, serialization support on)
 
@@ -131,7 +156,16 @@ CORE_CFGS: typing.List[Cfg] = [
     ("fan", "html", True),
     ("xroot", "c", False),
     ("deep", "py", True),
+    ("multi", "html", True),
+    ("case", "html", True),
 ]
+# additionally run through the CLI with --generate-namespace-types (c/cpp: a copy of the built-in templates plus a
+# Namespace.j2 that walks T.data_types / T.get_nested_types())
+GNT_CORE: typing.List[Cfg] = [("multi", "c", True), ("multi", "html", True)]
+_USER_NAMESPACE_J2 = (
+    "// namespace {{ T.full_name }}\n{% for t in T.data_types %}// data type {{ t }}\n{% endfor %}"
+    "{% for t, p in T.get_nested_types() %}// nested type {{ t.full_name }} {{ t.version.major }}.{{ t.version.minor }}\n{% endfor %}"
+)
 
 EXPECTED_SITES = (
     "nunavut._namespace:build_namespace_tree",
@@ -142,7 +176,14 @@ EXPECTED_SITES = (
 
 
 def all_cfgs() -> typing.List[Cfg]:
-    return [(n, l, s) for n in NAMESPACES for l in LANGS for s in (True, False)]
+    out = []
+    for n, d in NAMESPACES.items():
+        for l in LANGS:
+            if "targets" in d and LANGS[l][0] not in d["targets"]:
+                continue
+            for s in (True, False) if "targets" not in d else (True,):
+                out.append((n, l, s))
+    return out
 
 
 def cfg_id(cfg: Cfg) -> str:
@@ -451,6 +492,8 @@ def _report(
     lang = LANGS[cfg[1]][0]
     for kind, cause, path in diffs:
         sig = {"kind": "depends_on", "dim": dim, "lang": lang, "file_kind": kind, "cause": cause}
+        if "feature" in NAMESPACES[cfg[0]]:  # an input feature that names the root cause better than the diff does
+            sig["input_feature"] = NAMESPACES[cfg[0]]["feature"]
         if extra:
             sig.update(extra)
         if kind == "run":
@@ -560,7 +603,7 @@ _CLI_DRIVER = (
 )
 
 
-def cli_args(cfg: Cfg, root: pathlib.Path) -> typing.List[str]:
+def cli_args(cfg: Cfg, root: pathlib.Path, gnt: bool = False, user_templates: typing.Optional[pathlib.Path] = None) -> typing.List[str]:
     ns_name, lang_id, ser = cfg
     nsdef = NAMESPACES[ns_name]
     lang, options = LANGS[lang_id]
@@ -571,7 +614,25 @@ def cli_args(cfg: Cfg, root: pathlib.Path) -> typing.List[str]:
         args += ["--omit-serialization-support"]
     for r in nsdef.get("lookup", {}):
         args += ["--lookup-dir", str(root / "lookup" / r)]
+    if gnt:
+        args += ["--generate-namespace-types"]
+        if user_templates is not None:
+            args += ["--templates", str(user_templates)]
     return args + [str(root / "in" / nsdef["root"])]
+
+
+def _user_templates(cfg: Cfg, locs: "Locations") -> typing.Optional[pathlib.Path]:
+    """c/cpp have no namespace template: the built-in templates of the tree under test + a Namespace.j2 of ours."""
+    from vf.core import REPO  # pylint: disable=import-outside-toplevel
+
+    lang = LANGS[cfg[1]][0]
+    if lang not in ("c", "cpp"):
+        return None
+    d = locs.base / "utpl" / lang
+    shutil.rmtree(d, ignore_errors=True)
+    shutil.copytree(REPO / "src" / "nunavut" / "lang" / lang / "templates", d, ignore=shutil.ignore_patterns("__pycache__", "*.py"))
+    (d / "Namespace.j2").write_text(_USER_NAMESPACE_J2, encoding="utf-8")
+    return d
 
 
 def _hashseed_job(job: dict) -> dict:
@@ -583,13 +644,15 @@ def _hashseed_job(job: dict) -> dict:
     out = root / "out"
     bag = Bag()
     runs: typing.Dict[int, Run] = {}
+    gnt = bool(job.get("gnt"))
+    utpl = _user_templates(cfg, locs) if gnt else None
     for seed in job["seeds"]:
         shutil.rmtree(out, ignore_errors=True)
         out.mkdir(parents=True)
         env = dict(os.environ)
         env["PYTHONHASHSEED"] = str(seed)
         p = subprocess.run(
-            [sys.executable, "-c", _CLI_DRIVER, str(VERIF)] + cli_args(cfg, root),
+            [sys.executable, "-c", _CLI_DRIVER, str(VERIF)] + cli_args(cfg, root, gnt, utpl),
             cwd="/",
             env=env,
             stdout=subprocess.PIPE,
@@ -612,7 +675,7 @@ def _hashseed_job(job: dict) -> dict:
             k: (
                 "support"
                 if ("nunavut/support/" in k or k == "nunavut_support.py")
-                else ("namespace" if pathlib.Path(k).stem in ("__init__", "index") else "type")
+                else ("namespace" if pathlib.Path(k).stem in ("__init__", "index", "_", "_namespace_") else "type")
             )
             for k in files
         }
@@ -621,7 +684,7 @@ def _hashseed_job(job: dict) -> dict:
     for seed in job["seeds"][1:]:
         diffs = compare(runs[first], runs[seed], locs)
         if diffs:
-            _report(bag, cfg, "hashseed", diffs, {"kind": "hashseed", "cfg": list(cfg), "seeds": [first, seed]})
+            _report(bag, cfg, "hashseed", diffs, {"kind": "hashseed", "cfg": list(cfg), "seeds": [first, seed], "gnt": gnt})
     return {"cfg": cfg, "bag": bag, "executions": len(job["seeds"]), "digests": sorted({r.digest() for r in runs.values()})}
 
 
@@ -655,10 +718,10 @@ def run(ctx: Ctx) -> int:
         ambient_space += len(all_tuples)
         if ctx.thorough:
             tuples = all_tuples
-        elif cfg in core:
-            tuples = core_tuples
+        elif cfg in core:  # the two configurations added for ordering ties: schedules and hash seeds are the point
+            tuples = [] if cfg[0] in ("multi", "case") else core_tuples
         else:  # the seed selects whole configurations (a tuple needs its neighbours to be attributed)
-            tuples = all_tuples if ctx.in_slice(cfg_id(cfg) + "|ambient") else []
+            tuples = all_tuples if ctx.in_slice(cfg_id(cfg) + "|ambient", 24) else []
         jobs.append({"cfg": cfg, "tuples": tuples, "scratch": scratch})
     jobs.sort(key=lambda j: -len(j["tuples"]))  # long jobs first (stable, deterministic)
     res1 = ctx.pool_map(_ambient_job, jobs)
@@ -745,10 +808,17 @@ def run(ctx: Ctx) -> int:
         ctx.cap("sets with more than 4 elements offer 7..n+2 alternatives instead of n!: " + "; ".join(sorted(capped_sites)))
 
     # ---- phase 4: separate interpreters, PYTHONHASHSEED in {0,1,2,3}, real CLI
+    seeds = SEEDS_THOROUGH if ctx.thorough else SEEDS
     jobs = [
-        {"cfg": cfg, "seeds": SEEDS, "scratch": scratch}
+        {"cfg": cfg, "seeds": seeds, "scratch": scratch}
         for cfg in cfgs
-        if cfg in core or ctx.in_slice(cfg_id(cfg) + "|hashseed")
+        if cfg in core or ctx.in_slice(cfg_id(cfg) + "|hashseed", 32)
+    ]
+    gnt_space = [c for c in cfgs if c[2]]
+    jobs += [
+        {"cfg": cfg, "seeds": seeds, "scratch": scratch, "gnt": True}
+        for cfg in gnt_space
+        if cfg in GNT_CORE or ctx.in_slice(cfg_id(cfg) + "|hashseed|gnt", 32)
     ]
     res4 = ctx.pool_map(_hashseed_job, jobs)
     seed_runs = 0
@@ -814,7 +884,8 @@ def run(ctx: Ctx) -> int:
             f"{len(cfgs)} configurations ({len(NAMESPACES)} namespaces x {len(LANGS)} targets x serialization on/off); "
             f"ambient tuples {ambient_run}/{ambient_space}; schedules with 1 deviation {one_dev_run}/{one_dev_space} "
             f"(every alternative at every choice point); 2 deviations {two_dev_run}/{two_dev_space}; "
-            f"hash-seed processes {seed_runs}/{len(cfgs) * len(SEEDS)}"
+            f"hash-seed processes {seed_runs}/{(len(cfgs) + len(gnt_space)) * len(seeds)} ({len(seeds)} seeds; incl. "
+            f"--generate-namespace-types variants)"
         ),
         "exhaustive": False,
     }
@@ -847,7 +918,7 @@ def _replay_case(case: dict, scratch: str) -> typing.Tuple[typing.List[typing.Tu
         a = execute(cfg, REF_AMBIENT, permset.Scheduler(), locs)
         b = execute(cfg, REF_AMBIENT, permset.Scheduler([tuple(d) for d in case["dev"]], case["expect"]), locs)
     elif case["kind"] == "hashseed":
-        r = _hashseed_job({"cfg": cfg, "seeds": case["seeds"], "scratch": scratch})
+        r = _hashseed_job({"cfg": cfg, "seeds": case["seeds"], "scratch": scratch, "gnt": case.get("gnt", False)})
         diffs = [(v.sig["file_kind"], v.sig["cause"], "") for v in r["bag"].v.values()]
         return diffs, locs, ""
     else:
